@@ -116,6 +116,39 @@ var convPositions = []convPos{
 	{"method-arg", func(s, t numTy, e string) string {
 		return fmt.Sprintf("type Box struct { .F: i32 };\n\nfn (b: &Box) take(p: %s) { }\n\nfn main() {\n    let x: %s = %s;\n    let b: Box = { .F = 1 };\n    b.take(%s);\n}\n", t.name, s.name, litFor(s), e)
 	}},
+	{"catch-fallback", func(s, t numTy, e string) string {
+		return fmt.Sprintf("fn res() -> str ! %s {\n    return %s;\n}\n\nfn main() {\n    let x: %s = %s;\n    let y := res() catch %s;\n}\n", t.name, litFor(t), s.name, litFor(s), e)
+	}},
+	{"coalescing-default", func(s, t numTy, e string) string {
+		return fmt.Sprintf("fn main() {\n    let x: %s = %s;\n    let o: %s? = none;\n    let y: %s = o ?? %s;\n}\n", s.name, litFor(s), t.name, t.name, e)
+	}},
+	{"optional-init", func(s, t numTy, e string) string {
+		return fmt.Sprintf("fn main() {\n    let x: %s = %s;\n    let o: %s? = %s;\n}\n", s.name, litFor(s), t.name, e)
+	}},
+	{"element-assign", func(s, t numTy, e string) string {
+		return fmt.Sprintf("fn main() {\n    let x: %s = %s;\n    let a: []%s = [%s, %s];\n    a[1] = %s;\n}\n", s.name, litFor(s), t.name, litFor(t), litFor(t), e)
+	}},
+	{"fixed-element-assign", func(s, t numTy, e string) string {
+		return fmt.Sprintf("fn main() {\n    let x: %s = %s;\n    let a: [2]%s = [%s, %s];\n    a[1] = %s;\n}\n", s.name, litFor(s), t.name, litFor(t), litFor(t), e)
+	}},
+	{"append-value", func(s, t numTy, e string) string {
+		return fmt.Sprintf("fn main() {\n    let x: %s = %s;\n    let a: []%s = [%s];\n    append(&'a, %s);\n}\n", s.name, litFor(s), t.name, litFor(t), e)
+	}},
+	{"map-value", func(s, t numTy, e string) string {
+		return fmt.Sprintf("fn main() {\n    let x: %s = %s;\n    let m: map[str]%s = {\"a\" => %s};\n}\n", s.name, litFor(s), t.name, e)
+	}},
+	{"closure-arg", func(s, t numTy, e string) string {
+		return fmt.Sprintf("fn main() {\n    let x: %s = %s;\n    let f := fn(p: %s) -> i32 {\n        return 1;\n    };\n    let y := f(%s);\n}\n", s.name, litFor(s), t.name, e)
+	}},
+	{"literal-cast-field", func(s, t numTy, e string) string {
+		return fmt.Sprintf("type Box struct { .F: %s };\n\nfn main() {\n    let x: %s = %s;\n    let b := { .F = %s } as Box;\n}\n", t.name, s.name, litFor(s), e)
+	}},
+	{"const-init", func(s, t numTy, e string) string {
+		return fmt.Sprintf("fn main() {\n    let x: %s = %s;\n    const y: %s = %s;\n}\n", s.name, litFor(s), t.name, e)
+	}},
+	{"ref-write-through", func(s, t numTy, e string) string {
+		return fmt.Sprintf("fn main() {\n    let x: %s = %s;\n    let z: %s = %s;\n    let r: &'%s = &'z;\n    r = %s;\n}\n", s.name, litFor(s), t.name, litFor(t), t.name, e)
+	}},
 	{"closure-return", func(s, t numTy, e string) string {
 		return fmt.Sprintf("fn main() {\n    let x: %s = %s;\n    let f := fn(v: %s) -> %s {\n        return v;\n    };\n    let y := f(x);\n}\n", s.name, litFor(s), s.name, t.name)
 	}},
@@ -124,7 +157,7 @@ var convPositions = []convPos{
 func checkC11(c *Ctx) error {
 	r := c.R
 	r.Exhaustive = true
-	r.Rule = "all ordered pairs (S,T), S != T, of the 17 numeric types x assignment-like positions {typed let, assignment, argument, return, struct field init, field assignment, fixed and dynamic array element, method argument, closure return}; each is one program compiled by the real compiler with -t; accepted-without-cast must imply lossless by the arithmetic oracle; every lossy pair must be rejected implicitly and accepted with `as`. non-trivial = a distinct (pair, position) program whose control (T := S) was accepted, so the verdict is attributable to the conversion"
+	r.Rule = "all ordered pairs (S,T), S != T, of the 17 numeric types x assignment-like positions {typed let, assignment, argument, return, struct field init, field assignment, fixed and dynamic array element, method argument, closure return, catch fallback, ?? default, optional initialiser, dynamic and fixed element assignment, append value, map literal value, closure argument, cast struct literal field, const initialiser, write through a &' reference}; each is one program compiled by the real compiler with -t; accepted-without-cast must imply lossless by the arithmetic oracle; every lossy pair must be rejected implicitly and accepted with `as`. non-trivial = a distinct (pair, position) program whose control (T := S) was accepted, so the verdict is attributable to the conversion"
 	r.Assumptions = []string{"significand widths f32/f64/f128/f256 = 24/53/113/237 bits", "byte is an unsigned 8-bit numeric type", "the property is about static acceptance; run-time value preservation of accepted pairs is spot-checked natively for 8..64-bit integers and f32/f64"}
 	bin, err := c.Env.Ferret()
 	if err != nil {
@@ -263,13 +296,48 @@ func checkC11(c *Ctx) error {
 	}
 	r.Set("implicitly_accepted_pairs_at_let", strings.Join(acc, " "))
 
-	// run-time spot check: accepted pairs on boundary values of S (native)
-	type rt struct{ s, t numTy }
+	// run-time check: for every implicitly accepted pair (<= 64 bits, integer source) the boundary
+	// values of S are converted in every accepted position and printed (native)
+	type rt struct {
+		s, t numTy
+		pos  map[string]bool
+	}
+	rtIdx := map[string]int{}
 	var rts []rt
 	for i, cs := range cases {
-		if cs.pos.name == "let" && accepted[i] && !cs.cast && !cs.ctrl && cs.s.bits <= 64 && cs.t.bits <= 64 && cs.s.name != "byte" && cs.t.name != "byte" && !cs.s.float {
-			rts = append(rts, rt{cs.s, cs.t})
+		if accepted[i] && !cs.cast && !cs.ctrl && cs.s.bits <= 64 && cs.t.bits <= 64 && cs.s.name != "byte" && cs.t.name != "byte" && !cs.s.float {
+			k := cs.s.name + "->" + cs.t.name
+			j, ok := rtIdx[k]
+			if !ok {
+				j = len(rts)
+				rtIdx[k] = j
+				rts = append(rts, rt{cs.s, cs.t, map[string]bool{}})
+			}
+			rts[j].pos[cs.pos.name] = true
 		}
+	}
+	// position name -> statements that leave the converted value of `a` (type S) in variable bN (type T)
+	runPos := []struct {
+		name string
+		text string // %[1]d = unique number, T and S substituted afterwards
+	}{
+		{"let", "let b%[1]d: T = a%[2]d;"},
+		{"assign", "let b%[1]d: T = LIT;\n    b%[1]d = a%[2]d;"},
+		{"arg", "let b%[1]d := takeRet(a%[2]d);"},
+		{"return", "let b%[1]d := conv(a%[2]d);"},
+		{"field-init", "let x%[1]d: Box = { .F = a%[2]d };\n    let b%[1]d := x%[1]d.F;"},
+		{"field-assign", "let x%[1]d: Box = { .F = LIT };\n    x%[1]d.F = a%[2]d;\n    let b%[1]d := x%[1]d.F;"},
+		{"array-elem", "let x%[1]d: [2]T = [LIT, a%[2]d];\n    let b%[1]d := x%[1]d[1];"},
+		{"dyn-array-elem", "let x%[1]d: []T = [a%[2]d];\n    let b%[1]d := x%[1]d[0];"},
+		{"method-arg", "let b%[1]d := hold.pass(a%[2]d);"},
+		{"closure-return", "let b%[1]d := cret(a%[2]d);"},
+		{"catch-fallback", "let b%[1]d := res(false) catch a%[2]d;"},
+		{"element-assign", "let x%[1]d: []T = [LIT, LIT];\n    x%[1]d[1] = a%[2]d;\n    let b%[1]d := x%[1]d[1];"},
+		{"fixed-element-assign", "let x%[1]d: [2]T = [LIT, LIT];\n    x%[1]d[1] = a%[2]d;\n    let b%[1]d := x%[1]d[1];"},
+		{"append-value", "let x%[1]d: []T = [LIT];\n    append(&'x%[1]d, a%[2]d);\n    let b%[1]d := x%[1]d[1];"},
+		{"closure-arg", "let b%[1]d := carg(a%[2]d);"},
+		{"literal-cast-field", "let x%[1]d := { .F = a%[2]d } as Box;\n    let b%[1]d := x%[1]d.F;"},
+		{"ref-write-through", "let z%[1]d: T = LIT;\n    let r%[1]d: &'T = &'z%[1]d;\n    r%[1]d = a%[2]d;\n    let b%[1]d := z%[1]d;"},
 	}
 	core.ParDo(len(rts), 0, func(i int) {
 		s, t := rts[i].s, rts[i].t
@@ -280,29 +348,44 @@ func checkC11(c *Ctx) error {
 			vals = append(vals, big.NewInt(-1))
 		}
 		var sb strings.Builder
-		sb.WriteString("import \"std/io\";\n\nfn main() {\n")
-		var want []string
+		sb.WriteString("import \"std/io\";\n\ntype Box struct { .F: T };\n\ntype Hold struct { .G: i32 };\n\nfn takeRet(p: T) -> T {\n    return p;\n}\n\nfn conv(x: S) -> T {\n    return x;\n}\n\nfn (h: &Hold) pass(p: T) -> T {\n    return p;\n}\n\nfn res(ok: bool) -> str ! T {\n    if ok {\n        return LIT;\n    }\n    return \"e\"!;\n}\n\nfn main() {\n")
+		sb.WriteString("    let hold: Hold = { .G = 1 };\n    let cret := fn(v: S) -> T {\n        return v;\n    };\n    let carg := fn(p: T) -> T {\n        return p;\n    };\n")
+		var want, where []string
+		n := 0
 		for k, v := range vals {
-			fmt.Fprintf(&sb, "    let a%d: %s = %s;\n    let b%d: %s = a%d;\n    io::Println(b%d);\n", k, s.name, v.String(), k, t.name, k, k)
-			if t.float {
-				want = append(want, "f:"+v.String())
-			} else {
-				want = append(want, v.String())
+			fmt.Fprintf(&sb, "    let a%d: S = %s;\n", k, v.String())
+			for _, rp := range runPos {
+				if !rts[i].pos[rp.name] {
+					continue
+				}
+				if rp.name == "catch-fallback" && t.float {
+					continue // a result function with a float ok type does not assemble natively (vendored QBE; unrelated to the conversion, reported as an error by the compiler)
+				}
+				n++
+				sb.WriteString("    " + fmt.Sprintf(rp.text, n, k) + "\n")
+				fmt.Fprintf(&sb, "    io::Println(b%d);\n", n)
+				if t.float {
+					want = append(want, "f:"+v.String())
+				} else {
+					want = append(want, v.String())
+				}
+				where = append(where, rp.name)
 			}
 		}
 		sb.WriteString("}\n")
+		src := strings.NewReplacer("LIT", litFor(t), "T", t.name, "S", s.name).Replace(sb.String())
 		d := c.Env.CaseDir("c11", fmt.Sprintf("run%d", i))
 		f := filepath.Join(d, "main.fer")
-		core.WriteFile(f, sb.String())
+		core.WriteFile(f, src)
 		res := core.Compile(core.CompileOpts{Binary: bin, Libs: libs, Target: core.Native}, f)
 		r.Eval()
 		if !res.Accepted() {
-			r.Fail(core.Failure{Case: id, Signature: "spot-check-not-compiled", Detail: res.FirstError() + " " + res.Crash + "\n" + core.Short(res.Proc.Stderr, 500) + "\n" + sb.String(), Replay: sb.String()})
+			r.Fail(core.Failure{Case: id, Signature: "implicitly-converting-program-not-compiled: " + core.Short(res.FirstError(), 60), Detail: res.FirstError() + " " + res.Crash + "\n" + core.Short(core.StripANSI(res.Proc.Stderr), 600) + "\n" + src, Replay: src})
 			return
 		}
-		run := core.RunNative(res.Artifact, 10)
+		run := core.RunNative(res.Artifact, 20)
 		if run.Kind != core.RunExit0 || len(run.Lines) != len(want) {
-			r.Fail(core.Failure{Case: id, Signature: "spot-check-run-" + string(run.Kind), Detail: fmt.Sprintf("lines=%v stderr=%s\n%s", run.Lines, core.Short(run.Proc.Stderr, 300), sb.String()), Replay: sb.String()})
+			r.Fail(core.Failure{Case: id, Signature: "spot-check-run-" + string(run.Kind), Detail: fmt.Sprintf("lines=%d expected=%d stderr=%s\n%s", len(run.Lines), len(want), core.Short(run.Proc.Stderr, 300), src), Replay: src})
 			return
 		}
 		for k, w := range want {
@@ -314,9 +397,10 @@ func checkC11(c *Ctx) error {
 				ok = err == nil && gf.Cmp(wf) == 0
 			}
 			if !ok {
-				r.Fail(core.Failure{Case: id, Signature: "conversion-changed-value", Detail: fmt.Sprintf("value %s of %s converted implicitly to %s printed %q\n%s", vals[k], s.name, t.name, got, sb.String()), Replay: sb.String()})
+				r.Fail(core.Failure{Case: id + "@" + where[k], Signature: "conversion-changed-value", Detail: fmt.Sprintf("value %s of %s converted implicitly to %s in position %s printed %q\n%s", strings.TrimPrefix(w, "f:"), s.name, t.name, where[k], got, src), Replay: src})
 				return
 			}
+			r.Count("runtime_values_ok."+where[k], 1)
 		}
 		r.Nontrivial(id)
 		r.Count("runtime_spot_checks_ok", 1)
